@@ -294,14 +294,22 @@ func c10Project(nm *c10Names, ps *PartSet, orig []byte) map[string]interface{} {
 	post := map[string]interface{}{"slots": slots, "count": int(ps.Count()), "complete": ps.IsComplete(),
 		"bytesize": int(ps.ByteSize()), "reasm": "n/a"}
 	if ps.IsComplete() && ps.Total() > 0 {
-		got, err := io.ReadAll(ps.GetReader())
-		if err != nil {
-			post["reasm"] = "error"
-		} else if bytes.Equal(got, orig) {
-			post["reasm"] = "equal"
-		} else {
-			post["reasm"] = "different"
-		}
+		// a panic of the product while reassembling is an observation ("panic"), not a failure of the harness
+		func() {
+			defer func() {
+				if r := recover(); r != nil {
+					post["reasm"] = "panic"
+				}
+			}()
+			got, err := io.ReadAll(ps.GetReader())
+			if err != nil {
+				post["reasm"] = "error"
+			} else if bytes.Equal(got, orig) {
+				post["reasm"] = "equal"
+			} else {
+				post["reasm"] = "different"
+			}
+		}()
 	}
 	return post
 }
